@@ -755,6 +755,7 @@ fn addition(i: u32) -> (DelimiterTag, IppAttribute, &'static str) {
                 3 => IppValue::Uri("ipp://h/x".into()),
                 4 => IppValue::NameWithoutLanguage("n".into()),
                 5 => IppValue::TextWithoutLanguage("t".into()),
+                7 => IppValue::Enum(3),
                 _ => IppValue::MimeMediaType("application/pdf".into()),
             };
             (DelimiterTag::OperationAttributes, IppAttribute::new(*name, v), name)
@@ -765,7 +766,14 @@ const N_ADD: u32 = 8;
 
 /// every operation attribute RFC 8011 4.2-4.4 (and the CUPS operations) define besides the five that have a fixed
 /// position, plus look-alikes of those five: none of them may come between or before the mandatory / target ones
-const EXTRA_OP_ATTRS: [(&str, u8); 34] = [
+const EXTRA_OP_ATTRS: [(&str, u8); 40] = [
+    // the specially placed names themselves, carrying ANOTHER syntax than the RFC gives them (a value parsed from text is a keyword)
+    ("job-uri", 0),
+    ("printer-uri", 0),
+    ("job-id", 7),
+    ("job-id", 0),
+    ("attributes-charset", 0),
+    ("attributes-natural-language", 4),
     ("job-name", 4),
     ("ipp-attribute-fidelity", 2),
     ("document-name", 4),
